@@ -9,7 +9,7 @@ PROP = {
          'tampering of type, chain id, from, gas payer, recipient, recipient name, gas price, gas limit, amount, data, expiration, message after signing; one in five box-wrapped. The real miner '
          'path packages what it accepts, two nodes validate the block. Oracle for every packaged (sub)tx, against the account state at the parent: sender signatures recover (over the signing '
          'hash the repo defines for that tx form) to the sender itself (plain) or to DISTINCT registered signers with weight >= 100 (multisig), no signer repeated; if somebody else pays, the same for '
-         'the payer over (sender sigs, gas price, gas limit). distinct = (deputies, signer count, operator set); non-trivial = round where some but not all candidates were packaged A quarter of the candidates is wrapped into a box, half of those (plain senders) into a box of the sub-transaction\'s own sender.',
+         'the payer over (sender sigs, gas price, gas limit). distinct = (deputies, signer count, operator set); non-trivial = round where some but not all candidates were packaged A quarter of the candidates is wrapped into a box, half of those (plain senders) into a box of the sub-transaction\'s own sender. A third of the authorised boxed candidates is replaced by a signed box whose sub-transaction was swapped afterwards for another validly signed one announcing the original\'s hash; every sub-transaction of a packaged box must hash to what its fields hash to.',
  'assumptions': ['ecrecover (libsecp256k1 binding) is trusted to recover signers',
                  'an additional signature by a foreign key next to a sufficient set is not judged (the statement speaks of substituting)'],
  'min_cases': {'quick': 300, 'thorough': 8000},
